@@ -113,7 +113,8 @@ fn strip_generic_segments(s: &str) -> String {
     let mut out = String::with_capacity(s.len());
     let mut i = 0;
     while i < b.len() {
-        if b[i] == ':' && i + 2 < b.len() && b[i + 1] == ':' && b[i + 2] == '<' {
+        let is_impl_seg = i + 7 < b.len() && b[i + 2..i + 8].iter().collect::<String>() == "<impl ";
+        if b[i] == ':' && i + 2 < b.len() && b[i + 1] == ':' && b[i + 2] == '<' && !is_impl_seg {
             // skip balanced <...>
             let mut depth = 0i32;
             let mut j = i + 2;
@@ -152,9 +153,53 @@ impl<'tcx> Cx<'tcx> {
         }
         let raw = pp!(KR, (self.tcx.def_path_str(did)));
         let raw = strip_generic_segments(&raw);
-        let p = raw;
+        // items inside `const _: () = { impl .. }` (every derive of serde) all print as `module::_::name`:
+        // name the anonymous constant after the type its impl is for, so that the paths are distinct
+        let p = if raw.contains("::_::") {
+            match self.anon_owner(did) {
+                Some(o) => raw.replacen("::_::", &format!("::_[{}]::", o), 1),
+                None => raw,
+            }
+        } else {
+            raw
+        };
+        // same-named siblings (nested fns / types repeated in several arms of one body) differ only in their
+        // disambiguator, which the printer omits
+        let mut extra: Vec<String> = Vec::new();
+        for c in self.tcx.def_path(did).data.iter() {
+            if c.disambiguator != 0
+                && c.data.get_opt_name().map_or(true, |n| n.as_str() != "_")
+                && matches!(c.data, rustc_hir::definitions::DefPathData::TypeNs(..) | rustc_hir::definitions::DefPathData::ValueNs(..))
+            {
+                extra.push(c.disambiguator.to_string());
+            }
+        }
+        let p = if extra.is_empty() { p } else { format!("{}#{}", p, extra.join(".")) };
         self.path_cache.insert(did, p.clone());
         p
+    }
+
+    fn anon_owner(&mut self, did: DefId) -> Option<String> {
+        let tcx = self.tcx;
+        let mut cur = did;
+        loop {
+            let parent = tcx.opt_parent(cur)?;
+            let anon = matches!(tcx.def_kind(parent), DefKind::Const { .. } | DefKind::AnonConst)
+                && tcx.opt_item_name(parent).map_or(true, |n| n.as_str() == "_");
+            if anon {
+                if matches!(tcx.def_kind(cur), DefKind::Impl { .. }) {
+                    let st = tcx.type_of(cur).skip_binder();
+                    let full = match st.kind() {
+                        ty::Adt(adt, _) => pp!(KR, (tcx.def_path_str(adt.did()))),
+                        _ => pp!(KR, (format!("{}", st))),
+                    };
+                    let last = full.rsplit("::").next().unwrap_or(&full).to_string();
+                    return Some(last.chars().filter(|c| c.is_alphanumeric() || *c == '_').collect());
+                }
+                return tcx.opt_item_name(cur).map(|n| n.as_str().to_string());
+            }
+            cur = parent;
+        }
     }
 
     fn ty_str(&mut self, t: Ty<'tcx>) -> String {
